@@ -99,6 +99,7 @@ func CorpusTypes(seed int64, tier string) []*Case {
 	if tier == "thorough" {
 		k = 32
 	}
+	a0 := 0
 	for i, sh := range typeShapes() {
 		t := sh.T
 		it := Iface{Name: "I" + sh.Name, Methods: []Method{
@@ -112,6 +113,20 @@ func CorpusTypes(seed int64, tier string) []*Case {
 		for _, cfg := range rotate(i+int(seed), k) {
 			cfg.Args = []string{it.Name}
 			cases = append(cases, &Case{Origin: "types:" + sh.Name, Src: src, Cfg: cfg, Judge: baseJudge, Repeat: 2})
+		}
+		if sh.Name == "Local" || sh.Name == "SliceLocal" {
+			// source package named like a dependency that is first mentioned by a LATER
+			// method than the one using the source type
+			it3 := Iface{Name: "Order" + sh.Name, Methods: []Method{
+				{Name: "Apply", Params: ps(par("opts", Slice(t))), Results: []Param{}, Variadic: true},
+				meth("Build", ps(par("one", t)), ps(par("", t))),
+				meth("Send", ps(par("x", Named(a0, "T"))), ps(par("", Named(a0, "U")))),
+			}}
+			src3 := newSrc("alpha", pkgs, it3)
+			for _, cfg := range []Cfg{{Dest: "other"}, {Dest: "other", SkipEnsure: true}, {Dest: "srcTest", Stub: true}, {Dest: "implicit"}} {
+				cfg.Args = []string{it3.Name}
+				cases = append(cases, &Case{Origin: "types:" + sh.Name + ":order-srcnamed-alpha", Src: src3, Cfg: cfg, Judge: baseJudge})
+			}
 		}
 		// the same interface in a source package that is itself called like one of
 		// its dependencies (matters when the mock lives in another package)
@@ -370,7 +385,8 @@ func CorpusGenerics(seed int64, tier string) []*Case {
 		c2 := constraints[(i+3)%len(constraints)]
 		gs = append(gs, g{fmt.Sprintf("G2x%d", i), []TypeParam{{Name: "K", Constraint: c1}, {Name: "V", Constraint: c2}}})
 	}
-	gs = append(gs, g{"GNumA", []TypeParam{{Name: "N", Constraint: "pkgnum:1"}, {Name: "V", Constraint: "any"}}}, g{"GNumB", []TypeParam{{Name: "V", Constraint: "any"}, {Name: "N", Constraint: "pkgnum:2"}}})
+	gs = append(gs, g{"GNumA", []TypeParam{{Name: "N", Constraint: "pkgnum:1"}, {Name: "V", Constraint: "any"}}}, g{"GNumB", []TypeParam{{Name: "V", Constraint: "any"}, {Name: "N", Constraint: "pkgnum:2"}}},
+		g{"GIfaceA", []TypeParam{{Name: "K", Constraint: "pkgiface:1"}, {Name: "V", Constraint: "any"}}}, g{"GIfaceB", []TypeParam{{Name: "K", Constraint: "pkgiface:2"}}})
 	gs = append(gs, g{"GLower", []TypeParam{{Name: "t", Constraint: "any"}}}, g{"GSwap", []TypeParam{{Name: "B", Constraint: "any"}, {Name: "A", Constraint: "stringer"}}},
 		g{"G3", []TypeParam{{Name: "A", Constraint: "any"}, {Name: "B", Constraint: "union"}, {Name: "C", Constraint: "any"}}})
 	for i, x := range gs {
@@ -381,6 +397,7 @@ func CorpusGenerics(seed int64, tier string) []*Case {
 			meth("All", nil, ps(par("", Map(Basic("string"), Slice(last))))),
 			{Name: "Many", Params: ps(par("vs", Slice(last))), Results: ps(par("", first)), Variadic: true},
 			meth("Wrap", ps(par("g", NamedG(0, "G", first))), ps(par("", Ptr(last)))),
+			meth("Twice", ps(par("m", Map(Named(0, "U"), NamedG(0, "G", Named(1, "T"))))), ps(par("", NamedG(0, "G", NamedG(0, "G", last))))),
 			meth("Zed", ps(par("other", Named(2, "T"))), nil), // the other package called knum, met last
 		}}
 		src := newSrc("gsrc", pkgs, it)
